@@ -131,7 +131,7 @@ class _Actor:
         if kind == "stat":
             return "T"
         if kind == "listdir":
-            return sorted(_TMP_RE.sub("._TMP_", n) for n in val)
+            return sorted(_TMP_RE.sub("._TMP_", n if isinstance(n, str) else n.name) for n in val)
         if kind == "read":
             return val  # bytes
         return "ok"
@@ -224,11 +224,37 @@ def _install(actor):
         wrap1(os, name, kind)
     real_scandir = os.scandir
 
+    class _Scan:
+        """a materialised os.scandir result: iterator + context manager (the directory is read in ONE step)"""
+
+        def __init__(self, entries):
+            self._it = iter(entries)
+
+        def __iter__(self):
+            return self._it
+
+        def __next__(self):
+            return next(self._it)
+
+        def __enter__(self):
+            return self
+
+        def __exit__(self, *a):
+            return False
+
+        def close(self):
+            pass
+
     def t_scandir(path="."):
         r = rel(path)
         if r is None:
             return real_scandir(path)
-        raise RuntimeError("sched: os.scandir on watched path %s is not supported" % r)
+
+        def read():
+            with real_scandir(path) as it:
+                return list(it)
+        # the same observation as os.listdir: one step that reads the directory
+        return _Scan(_A.step("listdir", [r], read))
     os.scandir = t_scandir
     for name in ("isfile", "isdir", "exists", "islink"):
         wrap1(os.path, name, name)
